@@ -25,10 +25,10 @@ import (
 // reference policy written from the property statement gives the maximum number of attempts.
 
 const (
-	c28P = "10.2.0.1:6379"
-	c28R = "10.2.0.2:6379"
+	c28P  = "10.2.0.1:6379"
+	c28R  = "10.2.0.2:6379"
 	c28P2 = "10.2.0.3:6379" // the primary a -REDIRECT reply points to
-	c28S = "10.2.0.9:26379"
+	c28S  = "10.2.0.9:26379"
 )
 
 type c28case struct {
